@@ -710,18 +710,28 @@ def _run(ck, quick, workdir):
                         pre += c2["history"] + [c2["observed"]]
                     replay["history"] = pre + c["history"]
             ck.violation(w, replay)
-    ck.count("calls_audited", n_audit_calls + len(cases))
+    ck.count("calls_audited", n_audit_calls + len(cases) + 2 * (400 if quick else 4000))
     ck.extra["audit_items_per_snapshot"] = "see runner: every module-level value, default argument and pydantic field default of rpft.* (≈385)"
 
     phases["compare"] = round(time.time() - t0, 1)
     ck.extra["phase_seconds_cumulative"] = phases
     # ---- model ties
-    progs = [(c["observed"]["prog"], used[c["id"]][-1]) for c in cases if c["observed"]["op"] == "logprog"]
+    # a dedicated used process: many nests of real `with logging_context` blocks and UUIDDict runs in a row
+    r4 = random.Random(rng.randrange(1 << 60))
+    n_tie = 400 if quick else 4000
+    tie_calls = [{"op": "logprog", "prog": gen_prog(r4)} if i % 2 == 0 else {"op": "uuiddict", "ops": gen_uuid_ops(r4)} for i in range(2 * n_tie)]
+    tie_res = run_runner([{"id": "tie", "calls": tie_calls}], workdir)["results"][0]["calls"]
+    for k, (tc, tr) in enumerate(zip(tie_calls, tie_res)):
+        for w, d in call_problems(tc, tr):
+            ck.violation(w + " (tie batch)", {"history": [], "observed": tc, "detail": d})
+    progs = [(tc["prog"], tr) for tc, tr in zip(tie_calls, tie_res) if tc["op"] == "logprog"]
+    progs += [(c["observed"]["prog"], used[c["id"]][-1]) for c in cases if c["observed"]["op"] == "logprog"]
     progs += [(h["prog"], r) for c in cases for h, r in zip(c["history"], used[c["id"]]) if h["op"] == "logprog"]
     for t in prog_tie(drv, [p for p, _ in progs], [r for _, r in progs]):
         ck.tie_break("det.stack and the real logging_context disagree", t)
     ck.count("tie.logprog", len(progs))
-    uops = [(c["observed"]["ops"], used[c["id"]][-1]) for c in cases if c["observed"]["op"] == "uuiddict"]
+    uops = [(tc["ops"], tr) for tc, tr in zip(tie_calls, tie_res) if tc["op"] == "uuiddict"]
+    uops += [(c["observed"]["ops"], used[c["id"]][-1]) for c in cases if c["observed"]["op"] == "uuiddict"]
     uops += [(h["ops"], r) for c in cases for h, r in zip(c["history"], used[c["id"]]) if h["op"] == "uuiddict"]
     for t in uuid_tie(drv, [o for o, _ in uops], [r for _, r in uops]):
         ck.tie_break("det.uuid and the real UUIDDict disagree", t)
